@@ -295,11 +295,30 @@ def C02.cleanExact (g : Ghost) (o : Obs) : Bool :=
   | .clean, .ok _ => o.cleaned == g.pView && o.view.isEmpty && o.inf == 0
   | _, _ => true
 
+/-- the PUBREC reason codes below 0x80 (MQTT 5, 3.5.2.1: 0x00 Success, 0x10 No matching
+    subscribers): the broker has accepted the message and waits for the PUBREL; MQTT 3.1.1 has
+    no reason code -/
+def pubrecAccepts (ver : Version) (r : Nat) : Bool := decide (ver = .v4) || r == 0 || r == 16
+
+/-- a PUBREC that accepts a publish of this connection is answered by PUBREL (which `relHeld` then
+    requires to be held until PUBCOMP): the release obligation starts with the broker's answer,
+    not with what the client makes of it -/
+def C02.relAnswered (g : Ghost) (o : Obs) (g' : Ghost) : Bool :=
+  !g'.gated ||
+  match o.outcome with
+  | .panic => true
+  | _ =>
+    match o.op with
+    | .inc (.pubrec i r) =>
+      if (alookup g.unacked i).isSome && pubrecAccepts g.ver r then o.outcome == .ok (some (.pubrel i)) else true
+    | _ => true
+
 def lostTags (g' : Ghost) (o : Obs) : List Nat :=
   g'.accepted.filter (fun t => !(g'.done.contains t || (heldTags g' o).contains t))
 
 def C02.checks : Check := fun g _ o g' d' => firstFail [
   chk (C02.noLoss g' o) "c02-lost" s!"tags={lostTags g' o} causes={d'.causes}",
+  chk (C02.relAnswered g o g') "c02-no-pubrel" "PUBREC with a non-error reason code not answered by PUBREL: the release is neither sent nor held",
   chk (C02.relHeld g' o) "c02-rel-lost" s!"awaiting-comp={g'.rels}",
   chk (C02.cleanExact g o) "c02-clean" "clean() differs from what it held or left something behind"]
 
